@@ -63,7 +63,7 @@ func (r *runState) scenarioAuth() {
 		if i == 0 && n > 1 && r.flt.Bool(1, 2) {
 			kind = 8
 		}
-		r.c.Finger("session", i, authKinds[kind])
+		r.finger("session", i, authKinds[kind])
 		before := len(a.verdicts)
 		switch kind {
 		case 0, 1, 2, 3:
@@ -85,7 +85,7 @@ func (r *runState) scenarioAuth() {
 	}
 	r.sample["sessions"] = a.verdicts
 	for _, v := range a.verdicts {
-		r.c.Finger(v)
+		r.finger(v)
 	}
 }
 
